@@ -5,6 +5,7 @@ import (
 	"fmt"
 	"strings"
 	"sync"
+	"time"
 
 	"github.com/corestario/kyber"
 	"github.com/corestario/kyber/encrypt/ecies"
@@ -26,7 +27,7 @@ func init() { Register("C11", "exploration", checkC11) }
 var c11Kinds = []string{"deal-bitflip", "deal-truncated", "deal-10-bytes", "deal-1-byte", "deal-9-bytes", "deal-to-wrong-key", "deal-from-other-polynomial", "deal-share-off-polynomial", "commitments-shortened", "commitments-lengthened", "response-turned-into-complaint", "response-turned-into-signed-complaint"}
 
 func checkC11(c *Ctx) {
-	c.Rule = "full key generations in which the operator driver rewrites one dealer's result between its machine and its node: deal ciphertext bit-flipped / truncated / cut to 10 bytes, deal re-encrypted to another participant's key, a self-consistent deal from a second kyber dealer with the dealer's long-term key but fresh coefficients, broadcast commitment list shortened / lengthened, a response turned into a complaint; every (dealer, victim) pair, all (n,t) with n<=3 (quick) / n<=4 (thorough), random delivery. Oracle at quiescence: the victim's machine answered the responses step with the error event, no node is signing-ready and every node is in a cancelled state, no machine stores a keyring for the round; on any signing-ready round the C02 invariant must hold. Honest control runs must reach signing-ready. distinct = distinct (n,t,kind,dealer,victim)"
+	c.Rule = "full key generations in which the operator driver rewrites one dealer's result between its machine and its node: deal ciphertext bit-flipped / truncated / cut to 10 bytes, deal re-encrypted to another participant's key, a self-consistent deal from a second kyber dealer with the dealer's long-term key but fresh coefficients, broadcast commitment list shortened / lengthened, a response turned into a complaint; every (dealer, victim) pair, all (n,t) with n<=3 (quick) / n<=4 (thorough), random delivery. Oracle at quiescence: the victim's machine answered the responses step with the error event, no node is signing-ready and every node is in a cancelled state, no machine stores a keyring for the round; on any signing-ready round the C02 invariant must hold. A third of the runs: the victim's operations are stamped two minutes ahead of the other nodes' clocks. Honest control runs must reach signing-ready. distinct = distinct (n,t,kind,dealer,victim)"
 	c.Assumptions = []string{"the victim's long-term key is re-derived from its mnemonic (validated against GetPubKey) to re-encrypt deals", "kyber's own dealer is used to build the contradicting deal"}
 	type job struct {
 		n, t, D, V int
@@ -226,6 +227,24 @@ func runC11(c *Ctx, n, t, D, V int, kind string, seed uint64) {
 			}
 			return nil, nil
 		}
+	}
+	if seed%3 == 1 && V >= 0 && V < n {
+		// the victim's hot node runs with a clock two minutes ahead of the others (a fast clock, another
+		// time zone setting): every operation its machine reads - and so the error report it builds - carries
+		// a time the other nodes have not reached yet. What a node does with a report may not depend on its
+		// own wall clock.
+		prev := w.ColdHook
+		w.ColdHook = func(nd *world.Node, op *types.Operation) (*types.Operation, error) {
+			if nd.Idx == V {
+				op.CreatedAt = op.CreatedAt.Add(2 * time.Minute)
+			}
+			if prev != nil {
+				return prev(nd, op)
+			}
+			return nil, nil
+		}
+		wit["victims_operations_stamped_two_minutes_ahead"] = true
+		c.Add("runs_with_the_victims_clock_ahead", 1)
 	}
 	ce.Round, err = w.StartDKG(0, t, now())
 	if err != nil {
